@@ -1,5 +1,5 @@
 """C13 - hittability and note timing follow the warp rules exactly (structural clauses)."""
-from ..rules import notes, records, timing
+from ..rules import notes, records, timing, state
 
 EXPLANATION = (
     "Static rule checking: R-REBUILD the fake built by time_notes copies every field of the note except the type; R-ENUM the "
@@ -39,11 +39,15 @@ def sweep(ctx):
                                  ("simfile.notes.group:ungroup_notes", "simfile.notes.Note"): 2, ("simfile.notes.timed:time_notes", "simfile.notes.Note"): 1,
                                  ("simfile.notes.timed:time_notes", "simfile.notes.timed.TimedNote"): 2})
     records.enum_census(ctx, {("simfile.notes.group:group_notes.join_head_to_tail", "orphaned_tail"), ("simfile.notes.group:group_notes.join_head_to_tail", "orphaned_head"),
-                                ("simfile.notes.group:group_notes.add_row", "same_beat_notes"), ("simfile.notes.group:ungroup_notes.check_orphan", "orphaned_notes"),
+                                ("simfile.notes.group:group_notes.add_row", "same_beat_notes"), ("simfile.notes.group:ungroup_notes", "orphaned_notes"),
                                 ("simfile.notes.timed:time_notes", "unhittable_notes"), ("simfile.convert:_should_copy_property", "behavior")})
 
 
 sweep.thorough_only = True
+
+def c5(ctx):
+    state.shared_state(ctx, ["simfile.notes.timed:time_notes", "simfile.timing.engine:TimingEngine.__init__", "simfile.timing.engine:TimingEngine.hittable", "simfile.timing.engine:TimingEngine.time_at"], "timing a chart depends on the note data and timing data passed in, as they are at the call")
+    timing.warp_union(ctx)
 
 CLAUSES = [
     ("C13.1", "the fake keeps everything but the type (R-REBUILD)", c1),
@@ -51,4 +55,5 @@ CLAUSES = [
     ("C13.3-5", "only taps become fakes; same object otherwise; order preserved", c3),
     ("C13.4", "hittable looks at the whole beat; exception set", c4),
     ("C13.sweep", "package-wide census of record constructions and enum dispatches (thorough)", sweep),
+    ("C13.6", "no process-wide state behind time_notes / the engine; warp segments act as their union (R-STATE, R-TABLE)", c5),
 ]
